@@ -284,3 +284,148 @@ Proof.
   destruct d as [|p|p]; try lia.
   do 6 (destruct p as [p|p|]; try lia; try (rewrite digits_val_fold by exact H; reflexivity)).
 Qed.
+
+(* the same with a bound that shrinks with the iterations left: a digit run LONGER than the
+   repetition allows can never be consumed up to the character the pattern wants next *)
+Lemma rep_loop_fail_idx fuel ic cs (P : nat -> text -> Prop) K :
+  (forall n c s, P (S n) (c :: s) -> cc_match ic cs c = true -> P n s) ->
+  (forall n s g, P n s -> K s g = NoMatch) ->
+  forall hi lo s g, P hi s -> rep_loop (m fuel ic (Chr cs)) lo hi s g K = NoMatch.
+Proof.
+  intros Htl HK. induction hi as [|hi IH]; intros lo s g HP; cbn [rep_loop].
+  - destruct lo; [eapply HK; exact HP|reflexivity].
+  - assert (Hstep : m fuel ic (Chr cs) s g (fun s' g' => rep_loop (m fuel ic (Chr cs)) (pred lo) hi s' g' K) = NoMatch).
+    { destruct s as [|c s]; [reflexivity|]. cbn [m]. destruct (cc_match ic cs c) eqn:E; [|reflexivity].
+      apply IH. eapply Htl; eassumption. }
+    rewrite Hstep. destruct lo; [eapply HK; exact HP|reflexivity].
+Qed.
+
+Lemma group_digits_overlong fuel ic i nm lo hi j nm' want r ds rest g k :
+  all_digits ds -> (hi < length ds)%nat ->
+  (forall d, is_ascii_digit d = true -> cc_match ic [CLit want] d = false) ->
+  m fuel ic (Seq (Group i nm (Rep lo hi (Chr [CDigit]))) (Seq (Group j nm' (Chr [CLit want])) r)) (ds ++ rest) g k = NoMatch.
+Proof.
+  intros Hd Hlen Hdig. rewrite m_seq.
+  change (rep_loop (m fuel ic (Chr [CDigit])) lo hi (ds ++ rest) g
+            (fun s' g' => (fun s'' g'' => m fuel ic (Seq (Group j nm' (Chr [CLit want])) r) s'' g'' k)
+                            s' (gset i (span (ds ++ rest) s') g')) = NoMatch).
+  apply rep_loop_fail_idx with (P := fun n s => exists ds', all_digits ds' /\ (n < length ds')%nat /\ s = ds' ++ rest).
+  - intros n x s (ds' & Hds' & Hn & E) Hx. destruct ds' as [|d ds']; [cbn in Hn; lia|].
+    cbn [app] in E. injection E as E1 E2. subst. inversion Hds'; subst. exists ds'. repeat split; [assumption|cbn in Hn; lia].
+  - intros n s g0 (ds' & Hds' & Hn & E). subst s. cbv beta. rewrite m_seq, m_group.
+    destruct ds' as [|d ds']; [cbn in Hn; lia|]. inversion Hds'; subst. cbn [app]. apply m_chr_miss. apply Hdig. assumption.
+  - exists ds. repeat split; assumption.
+Qed.
+
+(* ---------------------------------------------------------------- fullmatch *)
+Lemma at_end_cons c s g : at_end (c :: s) g = NoMatch.
+Proof. reflexivity. Qed.
+
+Lemma fullmatch_hit rx s e g : fullmatch_here (S (length s)) rx s = Match e g -> fullmatch rx s = SMatch O s g.
+Proof. intros H. unfold fullmatch. rewrite H. reflexivity. Qed.
+Lemma fullmatch_miss rx s : fullmatch_here (S (length s)) rx s = NoMatch -> fullmatch rx s = SNoMatch.
+Proof. intros H. unfold fullmatch. rewrite H. reflexivity. Qed.
+Lemma fullmatch_first_miss rx c s : cannot_start rx c -> fullmatch rx (c :: s) = SNoMatch.
+Proof. intros H. apply fullmatch_miss. unfold fullmatch_here. apply first_miss; [lia|exact H]. Qed.
+
+(* could [r] consume the character [c] first?  (conservative; [r] may be nullable) *)
+Fixpoint firstc (ic : bool) (r : re) (c : Z) : bool :=
+  match r with
+  | Eps => false
+  | Chr cs => cc_match ic cs c
+  | Seq a b => firstc ic a c || (nullable a && firstc ic b c)
+  | Alt a b => firstc ic a c || firstc ic b c
+  | Opt a => firstc ic a c
+  | Rep _ _ a => firstc ic a c
+  | Plus a => first_ok ic a c
+  | Group _ _ a => firstc ic a c
+  end.
+
+Lemma firstc_first_ok ic c : forall r, nullable r = false -> firstc ic r c = false -> first_ok ic r c = false.
+Proof.
+  induction r; cbn [nullable firstc first_ok]; intros Hn H; try discriminate; try assumption.
+  - rewrite Hn in H |- *. apply orb_false_iff in H. destruct H as [H _]. apply IHr1; assumption.
+  - apply orb_false_iff in Hn. destruct Hn. apply orb_false_iff in H. destruct H.
+    rewrite IHr1, IHr2 by assumption. reflexivity.
+  - destruct lo; [discriminate|]. apply IHr; assumption.
+  - apply IHr; assumption.
+Qed.
+
+(* if [r] cannot consume [c] and the continuation fails on the text as it stands, [r] fails *)
+Lemma m_skip ic fuel c s : (0 < fuel)%nat -> forall r g k,
+  firstc ic r c = false -> (forall g', k (c :: s) g' = NoMatch) -> m fuel ic r (c :: s) g k = NoMatch.
+Proof.
+  intros Hf. induction r; intros g k H Hk; cbn [firstc] in H.
+  - apply Hk.
+  - apply m_chr_miss. exact H.
+  - apply orb_false_iff in H. destruct H as [H1 H2]. destruct (nullable r1) eqn:En.
+    + cbn [andb] in H2. rewrite m_seq. apply IHr1; [exact H1|]. intros g'. apply IHr2; assumption.
+    + rewrite m_seq. apply first_miss; [exact Hf|]. apply firstc_first_ok; assumption.
+  - apply orb_false_iff in H. destruct H as [H1 H2]. cbn [m]. rewrite IHr1 by assumption. apply IHr2; assumption.
+  - cbn [m]. rewrite IHr by assumption. apply Hk.
+  - cbn [m]. revert lo g. induction hi as [|hi IHhi]; intros lo g; cbn [rep_loop].
+    + destruct lo; [apply Hk|reflexivity].
+    + rewrite IHr; [destruct lo; [apply Hk|reflexivity]|exact H|]. intros g'. apply IHhi.
+  - cbn [m]. destruct fuel as [|fuel]; [lia|]. cbn [plus_loop]. apply first_miss; [lia|exact H].
+  - rewrite m_group. apply IHr; [exact H|]. intros g'. apply Hk.
+Qed.
+
+(* a digit run followed by a continuation that fails on every text starting with a digit: only the
+   split after the whole run can succeed, so the repetition behaves deterministically *)
+Definition digit_blind (k : K) : Prop := forall d s g, is_ascii_digit d = true -> k (d :: s) g = NoMatch.
+
+Lemma rep_digits_unique fuel ic : forall ds lo hi rest g K,
+  all_digits ds -> (lo <= length ds)%nat -> (length ds <= hi)%nat -> nodigit_head rest -> digit_blind K ->
+  rep_loop (m fuel ic (Chr [CDigit])) lo hi (ds ++ rest) g K = K rest g.
+Proof.
+  induction ds as [|d ds IH]; intros lo hi rest g K Hd Hlo Hhi Hend HK.
+  - cbn in Hlo. assert (lo = O) by lia. subst lo. cbn [app].
+    destruct hi as [|hi]; cbn [rep_loop]; [reflexivity|].
+    destruct rest as [|c rest]; [reflexivity|]. cbn in Hend.
+    rewrite m_chr_miss by (rewrite cc_digit; exact Hend). reflexivity.
+  - destruct hi as [|hi]; [cbn in Hhi; lia|].
+    inversion Hd as [|? ? Hd1 Hd2]; subst.
+    cbn [app rep_loop]. rewrite m_chr_ok by (rewrite cc_digit; exact Hd1).
+    rewrite (IH (pred lo) hi rest g K) by (try assumption; cbn in Hlo, Hhi; lia).
+    destruct (K rest g) eqn:E; try reflexivity.
+    destruct lo; [apply HK; exact Hd1|reflexivity].
+Qed.
+
+Lemma a_group_digits fuel ic i nm lo hi ds rest g k R :
+  all_digits ds -> (lo <= length ds)%nat -> (length ds <= hi)%nat -> nodigit_head rest -> digit_blind k ->
+  k rest (gset i ds g) = R -> m fuel ic (Group i nm (Rep lo hi (Chr [CDigit]))) (ds ++ rest) g k = R.
+Proof.
+  intros Hd Hlo Hhi Hend Hk HR.
+  change (rep_loop (m fuel ic (Chr [CDigit])) lo hi (ds ++ rest) g
+            (fun s' g' => k s' (gset i (span (ds ++ rest) s') g')) = R).
+  rewrite rep_digits_unique; try assumption; [rewrite span_app; exact HR|].
+  intros d s g' H. apply Hk. exact H.
+Qed.
+
+(* a digit run LONGER than the repetition allows, before a digit-blind continuation *)
+Lemma group_digits_overlong_k fuel ic i nm lo hi ds rest g k :
+  all_digits ds -> (hi < length ds)%nat -> digit_blind k ->
+  m fuel ic (Group i nm (Rep lo hi (Chr [CDigit]))) (ds ++ rest) g k = NoMatch.
+Proof.
+  intros Hd Hlen Hk.
+  change (rep_loop (m fuel ic (Chr [CDigit])) lo hi (ds ++ rest) g
+            (fun s' g' => k s' (gset i (span (ds ++ rest) s') g')) = NoMatch).
+  apply rep_loop_fail_idx with (P := fun n s => exists ds', all_digits ds' /\ (n < length ds')%nat /\ s = ds' ++ rest).
+  - intros n x s (ds' & Hds' & Hn & E) Hx. destruct ds' as [|d ds']; [cbn in Hn; lia|].
+    cbn [app] in E. injection E as E1 E2. subst. inversion Hds'; subst. exists ds'. repeat split; [assumption|cbn in Hn; lia].
+  - intros n s g0 (ds' & Hds' & Hn & E). subst s. cbv beta.
+    destruct ds' as [|d ds']; [cbn in Hn; lia|]. inversion Hds'; subst. cbn [app]. apply Hk. assumption.
+  - exists ds. repeat split; assumption.
+Qed.
+
+Lemma digit_blind_skip ic fuel r k : (0 < fuel)%nat ->
+  (forall d, is_ascii_digit d = true -> firstc ic r d = false) -> digit_blind k ->
+  digit_blind (fun s g => m fuel ic r s g k).
+Proof. intros Hf Hr Hk d s g Hd. apply m_skip; [exact Hf|apply Hr; exact Hd|]. intros g'. apply Hk. exact Hd. Qed.
+
+Lemma digit_blind_at_end : digit_blind at_end.
+Proof. intros d s g _. reflexivity. Qed.
+
+Lemma digit_blind_first ic fuel r k : (0 < fuel)%nat ->
+  (forall d, is_ascii_digit d = true -> first_ok ic r d = false) -> digit_blind (fun s g => m fuel ic r s g k).
+Proof. intros Hf Hr d s g Hd. apply first_miss; [exact Hf|apply Hr; exact Hd]. Qed.
